@@ -58,6 +58,9 @@ def reader_step(res, sp, top, inp, rs, fresh, finals, allw):
     try:
         if fresh or rs.reader is None:
             rs.reader = digital_rf.DigitalRFReader(top)
+        # first a read of the whole planned span (also where no file or subdirectory exists yet), then
+        # the usual bounds + read: both must return exactly the finalized samples
+        _r, ahead = P.reader_pass(top, sp, reader=rs.reader, planned=True)
         _r, seen = P.reader_pass(top, sp, reader=rs.reader)
     except Exception as e:  # noqa
         sig = "reader-fails-during-recording"
@@ -80,6 +83,9 @@ def reader_step(res, sp, top, inp, rs, fresh, finals, allw):
     if not (seen == finals):
         res.violation("reader-not-exactly-finalized", "a concurrent reader does not see exactly the files finalized so far"
                       " (%s reader)" % rs.name, inp, finals.brief(), seen.brief())
+    if not (ahead == finals):
+        res.violation("read-ahead-not-exactly-finalized", "a concurrent reader that reads the whole planned span does not "
+                      "get exactly the files finalized so far (%s reader)" % rs.name, inp, finals.brief(), ahead.brief())
     if rs.prev is not None and not rs.prev.subset_of(seen):
         res.violation("visibility-shrinks", "samples a reader could read earlier are no longer readable or changed"
                       " (%s reader)" % rs.name, inp, rs.prev.brief(), seen.brief())
